@@ -115,67 +115,75 @@ def check(src, rep):
         for which in ("frame", "body"):
             f_, arg = wrap(body, which)
             res = AE.apply(f_, [arg])
-            desc = f"{which} with a positional list of {n} elements"
-            if res[0] == "branch" and _orders_register(res[1]):
-                Vio("R2", "value-dependent-scaling", "how a register is scaled depends on the magnitude of the register value itself (a comparison of the transmitted number with a constant), not only on the "
-                    "field it is: some values of the register's range are stored with another scale", f"{desc}: condition {res[1]!r}"[:200])
-                continue
-            if res[0] in ("undecided", "branch"):
-                und = f"{desc}: {res[1]!r}"
-                break
-            if names is None:
-                if res[0] != "raise":
-                    Vio("R1", f"layout:{n}", f"an undocumented {n}-element positional list is accepted", desc)
-                continue
-            if res[0] == "raise":
-                Vio("R1", f"layout:{n}", f"the documented {n}-element layout is refused ({res[1]})", desc)
-                continue
-            got = res[1]
-            if not isinstance(got, dict):
-                und = f"{desc}: no dictionary returned"
-                break
-            rlog.add(desc, got)
-            want = {MAN: "Kaifa"}
-            if which == "frame":
-                want["meter_datetime"] = ADT
-            for i, nm in enumerate(names):
-                want[nm] = DT if nm == "meter_datetime" else vals[i]
-            for i, nm in enumerate(names):
-                cells += 1
-                g = got.get(nm, None)
-                if nm not in got:
-                    where = [k for k, v in got.items() if v == vals[i] or (isinstance(vals[i], Sym) and isinstance(v, Res) and vals[i] in _terms(v))]
-                    Vio("R1", f"field-name:{n}:{i}", f"position {i} of the {n}-element list is stored under {where[:1] or 'nothing'} instead of {nm!r}", desc)
+            results_ = [res]
+            if res[0] == "branch" and not _orders_register(res[1]):
+                # a condition on abstract values that is not a comparison of a register (e.g. whether a date-time has a time zone): every outcome is judged
+                from sa.parsedworlds import run_valuations
+                results_ = [r_ for _, r_ in run_valuations(AE, f_, [arg], limit=16)[0]]
+            for res in results_:
+                desc = f"{which} with a positional list of {n} elements"
+                if res[0] == "branch" and _orders_register(res[1]):
+                    Vio("R2", "value-dependent-scaling", "how a register is scaled depends on the magnitude of the register value itself (a comparison of the transmitted number with a constant), not only on the "
+                        "field it is: some values of the register's range are stored with another scale", f"{desc}: condition {res[1]!r}"[:200])
                     continue
-                if nm in SCALE:
-                    if exact(g, vals[i], SCALE[nm]):
+                if res[0] in ("undecided", "branch"):
+                    und = f"{desc}: {res[1]!r}"
+                    break
+                if names is None:
+                    if res[0] != "raise":
+                        Vio("R1", f"layout:{n}", f"an undocumented {n}-element positional list is accepted", desc)
+                    continue
+                if res[0] == "raise":
+                    Vio("R1", f"layout:{n}", f"the documented {n}-element layout is refused ({res[1]})", desc)
+                    continue
+                got = res[1]
+                if not isinstance(got, dict):
+                    und = f"{desc}: no dictionary returned"
+                    break
+                rlog.add(desc, got)
+                want = {MAN: "Kaifa"}
+                if which == "frame":
+                    want["meter_datetime"] = ADT
+                for i, nm in enumerate(names):
+                    want[nm] = DT if nm == "meter_datetime" else vals[i]
+                for i, nm in enumerate(names):
+                    cells += 1
+                    g = got.get(nm, None)
+                    if nm not in got:
+                        where = [k for k, v in got.items() if v == vals[i] or (isinstance(vals[i], Sym) and isinstance(v, Res) and vals[i] in _terms(v))]
+                        Vio("R1", f"field-name:{n}:{i}", f"position {i} of the {n}-element list is stored under {where[:1] or 'nothing'} instead of {nm!r}", desc)
                         continue
-                    if g == vals[i] or any(exact(g, vals[i], e) for e in (-1, -2, -3)):
-                        Vio("R2", f"scaling:{nm}", f"field {nm!r} (position {i} of the {n}-element list) is not scaled by 10^{SCALE[nm]}", f"{desc}: stored {g!r}")
-                    else:
-                        Vio("R3", f"inexact:{nm}", "a negative power of ten is applied by multiplication without rounding to the exponent's number of digits (35 * 10**-3 -> 0.035000000000000003), or outside the idiom catalogue",
-                            f"{desc}: stored {g!r}")
-                elif nm == "meter_datetime":
-                    if g != DT:
-                        if g == ADT:
-                            Vio("R4", "clock-precedence", "the APDU date-time overrides the list's own clock element", desc)
+                    if nm in SCALE:
+                        if exact(g, vals[i], SCALE[nm]):
+                            continue
+                        if g == vals[i] or any(exact(g, vals[i], e) for e in (-1, -2, -3)):
+                            Vio("R2", f"scaling:{nm}", f"field {nm!r} (position {i} of the {n}-element list) is not scaled by 10^{SCALE[nm]}", f"{desc}: stored {g!r}")
                         else:
-                            Vio("R4", "list-clock", "the list's own clock element is not stored as the decoded datetime", f"{desc}: stored {g!r}")
-                elif g != vals[i]:
-                    if isinstance(vals[i], Sym) and vals[i].pytype == "int":
-                        Vio("R2", f"scaling:{nm}", f"field {nm!r} (position {i} of the {n}-element list) must not be scaled", f"{desc}: stored {g!r}")
-                    else:
-                        Vio("R5", "text-not-verbatim", "a non-integer value is transformed before it is stored", f"{desc}: stored {g!r}")
-            if "meter_datetime" not in names:
-                if which == "frame" and got.get("meter_datetime") != ADT:
-                    Vio("R4", "apdu-clock-missing", "frames in the positional layout without a clock element do not get the APDU date-time as meter clock", f"{desc}: {got.get('meter_datetime')!r}")
-                if which == "body" and "meter_datetime" in got:
-                    Vio("R4", "apdu-clock-in-body", "a bare body reports a meter clock although it carries none", desc)
-            if got.get(MAN) != "Kaifa":
-                Vio("R5", "manufacturer", "the manufacturer field is not the constant 'Kaifa'", repr(got.get(MAN)))
-            extra = [k for k in got if k not in want]
-            if extra:
-                Vio("R1", "extra-fields", f"the dictionary has entries no element accounts for: {extra[:3]}", desc)
+                            Vio("R3", f"inexact:{nm}", "a negative power of ten is applied by multiplication without rounding to the exponent's number of digits (35 * 10**-3 -> 0.035000000000000003), or outside the idiom catalogue",
+                                f"{desc}: stored {g!r}")
+                    elif nm == "meter_datetime":
+                        if g != DT:
+                            if g == ADT:
+                                Vio("R4", "clock-precedence", "the APDU date-time overrides the list's own clock element", desc)
+                            else:
+                                Vio("R4", "list-clock", "the list's own clock element is not stored as the decoded datetime", f"{desc}: stored {g!r}")
+                    elif g != vals[i]:
+                        if isinstance(vals[i], Sym) and vals[i].pytype == "int":
+                            Vio("R2", f"scaling:{nm}", f"field {nm!r} (position {i} of the {n}-element list) must not be scaled", f"{desc}: stored {g!r}")
+                        else:
+                            Vio("R5", "text-not-verbatim", "a non-integer value is transformed before it is stored", f"{desc}: stored {g!r}")
+                if "meter_datetime" not in names:
+                    if which == "frame" and got.get("meter_datetime") != ADT:
+                        Vio("R4", "apdu-clock-missing", "frames in the positional layout without a clock element do not get the APDU date-time as meter clock", f"{desc}: {got.get('meter_datetime')!r}")
+                    if which == "body" and "meter_datetime" in got:
+                        Vio("R4", "apdu-clock-in-body", "a bare body reports a meter clock although it carries none", desc)
+                if got.get(MAN) != "Kaifa":
+                    Vio("R5", "manufacturer", "the manufacturer field is not the constant 'Kaifa'", repr(got.get(MAN)))
+                extra = [k for k in got if k not in want]
+                if extra:
+                    Vio("R1", "extra-fields", f"the dictionary has entries no element accounts for: {extra[:3]}", desc)
+                if und:
+                    break
         if und:
             break
     # ---- OBIS-tagged layout
@@ -189,43 +197,51 @@ def check(src, rep):
         for which in ("frame", "body"):
             f_, arg = wrap(body, which)
             res = AE.apply(f_, [arg])
-            desc = f"{which} with an OBIS-tagged list"
-            if res[0] == "branch" and _orders_register(res[1]):
-                Vio("R2", "value-dependent-scaling", "how a register is scaled depends on the magnitude of the register value itself (a comparison of the transmitted number with a constant), not only on the "
-                    "field it is: some values of the register's range are stored with another scale", f"{desc}: condition {res[1]!r}"[:200])
-                continue
-            if res[0] in ("undecided", "branch"):
-                und = f"{desc}: {res[1]!r}"
-                break
-            if res[0] == "raise":
-                if res[1] == "KeyError":
-                    Vio("R5", "naming", "the common-name table is indexed without a membership test (unknown OBIS codes raise KeyError)", desc)
-                else:
-                    Vio("R5", "normaliser-raises", f"the normaliser raises {res[1]} for a well-formed {desc}", desc)
-                continue
-            got = res[1]
-            rlog.add(desc, got)
-            for c, v in codes:
-                n_obis += 1
-                cdr = ".".join(c.split(".")[2:5])
-                nm = name_map.get(cdr, cdr)
-                if nm not in got:
-                    Vio("R5", "naming", f"an element is not stored under {nm!r} (obis_name_map[C.D.E] when known, else C.D.E)", f"{desc}; keys {sorted(map(str, got))[:6]}")
+            results_ = [res]
+            if res[0] == "branch" and not _orders_register(res[1]):
+                # a condition on abstract values that is not a comparison of a register (e.g. whether a date-time has a time zone): every outcome is judged
+                from sa.parsedworlds import run_valuations
+                results_ = [r_ for _, r_ in run_valuations(AE, f_, [arg], limit=16)[0]]
+            for res in results_:
+                desc = f"{which} with an OBIS-tagged list"
+                if res[0] == "branch" and _orders_register(res[1]):
+                    Vio("R2", "value-dependent-scaling", "how a register is scaled depends on the magnitude of the register value itself (a comparison of the transmitted number with a constant), not only on the "
+                        "field it is: some values of the register's range are stored with another scale", f"{desc}: condition {res[1]!r}"[:200])
                     continue
-                g = got[nm]
-                if nm in SCALE:
-                    if not exact(g, v, SCALE[nm]):
-                        if g == v or any(exact(g, v, e) for e in (-1, -2, -3)):
-                            Vio("R2", f"scaling:{nm}", f"field {nm!r} is not scaled by 10^{SCALE[nm]} in the OBIS-tagged layout", f"{desc}: stored {g!r}")
-                        else:
-                            Vio("R3", f"inexact:{nm}", "a negative power of ten is applied by multiplication without rounding", f"{desc}: stored {g!r}")
-                elif isinstance(v, AObj):
-                    if g != DT:
-                        Vio("R4", "list-clock", "the clock element of the OBIS-tagged list is not stored as the decoded datetime", f"{desc}: stored {g!r}")
-                elif g != v:
-                    Vio("R2" if v.pytype == "int" else "R5", f"scaling:{nm}" if v.pytype == "int" else "text-not-verbatim", f"field {nm!r} of the OBIS-tagged list is not stored as parsed", f"{desc}: stored {g!r}")
-            if got.get(MAN) != "Kaifa":
-                Vio("R5", "manufacturer", "the manufacturer field is not the constant 'Kaifa'", repr(got.get(MAN)))
+                if res[0] in ("undecided", "branch"):
+                    und = f"{desc}: {res[1]!r}"
+                    break
+                if res[0] == "raise":
+                    if res[1] == "KeyError":
+                        Vio("R5", "naming", "the common-name table is indexed without a membership test (unknown OBIS codes raise KeyError)", desc)
+                    else:
+                        Vio("R5", "normaliser-raises", f"the normaliser raises {res[1]} for a well-formed {desc}", desc)
+                    continue
+                got = res[1]
+                rlog.add(desc, got)
+                for c, v in codes:
+                    n_obis += 1
+                    cdr = ".".join(c.split(".")[2:5])
+                    nm = name_map.get(cdr, cdr)
+                    if nm not in got:
+                        Vio("R5", "naming", f"an element is not stored under {nm!r} (obis_name_map[C.D.E] when known, else C.D.E)", f"{desc}; keys {sorted(map(str, got))[:6]}")
+                        continue
+                    g = got[nm]
+                    if nm in SCALE:
+                        if not exact(g, v, SCALE[nm]):
+                            if g == v or any(exact(g, v, e) for e in (-1, -2, -3)):
+                                Vio("R2", f"scaling:{nm}", f"field {nm!r} is not scaled by 10^{SCALE[nm]} in the OBIS-tagged layout", f"{desc}: stored {g!r}")
+                            else:
+                                Vio("R3", f"inexact:{nm}", "a negative power of ten is applied by multiplication without rounding", f"{desc}: stored {g!r}")
+                    elif isinstance(v, AObj):
+                        if g != DT:
+                            Vio("R4", "list-clock", "the clock element of the OBIS-tagged list is not stored as the decoded datetime", f"{desc}: stored {g!r}")
+                    elif g != v:
+                        Vio("R2" if v.pytype == "int" else "R5", f"scaling:{nm}" if v.pytype == "int" else "text-not-verbatim", f"field {nm!r} of the OBIS-tagged list is not stored as parsed", f"{desc}: stored {g!r}")
+                if got.get(MAN) != "Kaifa":
+                    Vio("R5", "manufacturer", "the manufacturer field is not the constant 'Kaifa'", repr(got.get(MAN)))
+                if und:
+                    break
     rf = rlog.finding()
     if rf:
         Vio("R1", "result-aliased", rf[0], rf[1], "normalize_parsed_notification")
